@@ -459,9 +459,7 @@ def gradient(ast, data, betas, names, shared=None, draws=None, panel_groups=None
     return np.array(out)
 
 
-def hessian(ast, data, betas, names, shared=None, draws=None, panel_groups=None, rel=1e-5):
-    """Second derivatives: central differences of the complex-step gradient. (K, K, N)"""
-    K = len(names)
+def _hessian_cd(ast, data, betas, names, shared, draws, panel_groups, rel):
     cols = []
     for j, nm in enumerate(names):
         hstep = rel * max(1.0, abs(betas[nm]))
@@ -474,6 +472,17 @@ def hessian(ast, data, betas, names, shared=None, draws=None, panel_groups=None,
         cols.append((gp - gm) / (2 * hstep))
     H = np.array(cols)  # [j, i, n] = d g_i / d b_j
     return 0.5 * (H + np.transpose(H, (1, 0, 2)))
+
+
+def hessian(ast, data, betas, names, shared=None, draws=None, panel_groups=None, rel=2e-4, with_error=False):
+    """Second derivatives: Richardson-extrapolated central differences of the complex-step
+    gradient. (K, K, N). with_error: also returns |extrapolated - plain| as an error indicator."""
+    h1 = _hessian_cd(ast, data, betas, names, shared, draws, panel_groups, rel)
+    h2 = _hessian_cd(ast, data, betas, names, shared, draws, panel_groups, rel / 2)
+    H = (4 * h2 - h1) / 3
+    if with_error:
+        return H, np.abs(H - h2)
+    return H
 
 
 # third, trivially simple route: render as python/numpy source and eval (self-test of this oracle)
